@@ -75,7 +75,17 @@ pub struct FracM {
     pub imperial: Option<(u8, u8)>,
     pub quantity: Vec<(u8, bool)>,
     pub unit: Vec<(String, u8)>,
+    /// accuracy (index into ACCURACIES) named at the base level (then `all` is a table) and by the unit entries
+    #[serde(default)]
+    pub all_accuracy: Option<u8>,
+    #[serde(default)]
+    pub unit_accuracy: Option<u8>,
+    /// accuracy named by the `imperial` table
+    #[serde(default)]
+    pub imperial_accuracy: Option<u8>,
 }
+
+const ACCURACIES: [f32; 4] = [0.01, 0.05, 0.12, 0.3];
 
 #[derive(Debug, Clone, Serialize, Deserialize, PartialEq)]
 pub struct FileM {
@@ -147,14 +157,17 @@ pub fn to_toml(f: &FileM) -> String {
     }
     if let Some(fr) = &f.fractions {
         s.push_str("[fractions]\n");
-        if let Some(b) = fr.all {
-            s.push_str(&format!("all = {b}\n"));
+        match (fr.all, fr.all_accuracy) {
+            (b, Some(a)) => s.push_str(&format!("all = {{ {}accuracy = {} }}\n", b.map_or(String::new(), |b| format!("enabled = {b}, ")), ACCURACIES[a as usize % 4])),
+            (Some(b), None) => s.push_str(&format!("all = {b}\n")),
+            (None, None) => {}
         }
         if let Some(b) = fr.metric {
             s.push_str(&format!("metric = {b}\n"));
         }
         if let Some((d, w)) = fr.imperial {
-            s.push_str(&format!("imperial = {{ enabled = true, max_denominator = {d}, max_whole = {w} }}\n"));
+            let acc = fr.imperial_accuracy.map_or(String::new(), |a| format!(", accuracy = {}", ACCURACIES[a as usize % 4]));
+            s.push_str(&format!("imperial = {{ enabled = true, max_denominator = {d}, max_whole = {w}{acc} }}\n"));
         }
         if !fr.quantity.is_empty() {
             s.push_str("[fractions.quantity]\n");
@@ -176,7 +189,8 @@ pub fn to_toml(f: &FileM) -> String {
                     continue;
                 }
                 seen.push(k);
-                s.push_str(&format!("{} = {{ max_denominator = {d} }}\n", tstr(k)));
+                let acc = fr.unit_accuracy.map_or(String::new(), |a| format!(", accuracy = {}", ACCURACIES[a as usize % 4]));
+                s.push_str(&format!("{} = {{ max_denominator = {d}{acc} }}\n", tstr(k)));
             }
         }
     }
@@ -256,7 +270,7 @@ impl RUnit {
 #[derive(Debug)]
 enum RefOutcome {
     /// unit table, best lists, effective fraction settings per unit (None = depends on table order)
-    Accept(Vec<RUnit>, Vec<Option<BestM>>, Vec<Option<(bool, u8, u32)>>),
+    Accept(Vec<RUnit>, Vec<Option<BestM>>, Vec<Option<(bool, u8, u32, f32)>>),
     Reject(&'static str),
     /// the outcome may depend on the iteration order of an extend table: only generic checks
     Unsure,
@@ -528,14 +542,15 @@ struct RCfg {
     enabled: Option<bool>,
     den: Option<u8>,
     whole: Option<u32>,
+    acc: Option<f32>,
 }
 
 impl RCfg {
     fn merge(self, o: RCfg) -> RCfg {
-        RCfg { enabled: self.enabled.or(o.enabled), den: self.den.or(o.den), whole: self.whole.or(o.whole) }
+        RCfg { enabled: self.enabled.or(o.enabled), den: self.den.or(o.den), whole: self.whole.or(o.whole), acc: self.acc.or(o.acc) }
     }
-    fn define(self) -> (bool, u8, u32) {
-        (self.enabled.unwrap_or(false), self.den.unwrap_or(4).clamp(1, 16), self.whole.unwrap_or(u32::MAX))
+    fn define(self) -> (bool, u8, u32, f32) {
+        (self.enabled.unwrap_or(false), self.den.unwrap_or(4).clamp(1, 16), self.whole.unwrap_or(u32::MAX), self.acc.unwrap_or(0.05))
     }
 }
 
@@ -543,16 +558,21 @@ impl RCfg {
 /// the general levels (all, per system, per quantity) of a later layer replace those of an earlier one;
 /// a per-unit entry fills the fields it leaves unset from the *final* quantity, system and base levels
 /// (in that order); a unit without an entry uses the first of quantity, system, base that is set.
-fn frac_reference(fractions: &[&FracM], units: &[RUnit], index: &HashMap<String, usize>) -> Vec<Option<(bool, u8, u32)>> {
+fn frac_reference(fractions: &[&FracM], units: &[RUnit], index: &HashMap<String, usize>) -> Vec<Option<(bool, u8, u32, f32)>> {
     let toggle = |b: bool| RCfg { enabled: Some(b), ..Default::default() };
     let mut all: Option<RCfg> = None;
     let mut metric: Option<RCfg> = None;
     let mut imperial: Option<RCfg> = None;
     let mut quantity: HashMap<usize, RCfg> = HashMap::new();
     for fr in fractions {
-        all = fr.all.map(toggle).or(all);
+        let acc = |a: Option<u8>| a.map(|a| ACCURACIES[a as usize % 4]);
+        let this_all = match (fr.all, fr.all_accuracy) {
+            (None, None) => None,
+            (b, a) => Some(RCfg { enabled: b, acc: acc(a), ..Default::default() }),
+        };
+        all = this_all.or(all);
         metric = fr.metric.map(toggle).or(metric);
-        imperial = fr.imperial.map(|(d, w)| RCfg { enabled: Some(true), den: Some(d), whole: Some(w as u32) }).or(imperial);
+        imperial = fr.imperial.map(|(d, w)| RCfg { enabled: Some(true), den: Some(d), whole: Some(w as u32), acc: acc(fr.imperial_accuracy) }).or(imperial);
         let mut seen = vec![];
         for (q, b) in &fr.quantity {
             let q = *q as usize % 5;
@@ -586,7 +606,7 @@ fn frac_reference(fractions: &[&FracM], units: &[RUnit], index: &HashMap<String,
                 None => {}
             }
             here.insert(id, *d);
-            let mut cfg = RCfg { den: Some(*d), ..Default::default() };
+            let mut cfg = RCfg { den: Some(*d), acc: fr.unit_accuracy.map(|a| ACCURACIES[a as usize % 4]), ..Default::default() };
             if let Some(inherit) = general(&units[id]).into_iter().reduce(|a, e| a.merge(e)) {
                 cfg = cfg.merge(inherit);
             }
@@ -717,6 +737,18 @@ pub fn oracle(files: &[FileM], st: &mut Stats) -> Verdict {
         v.msg = format!("{}; files {}", v.msg, serde_json::to_string(files).unwrap());
         v
     })?;
+    // the default system is the one named by the last layer that names one (metric otherwise)
+    let expected_default = match files.iter().rev().find_map(|f| f.default_system) {
+        Some(true) => System::Imperial,
+        _ => System::Metric,
+    };
+    vensure!(
+        conv.default_system() == expected_default,
+        "c16.default-system",
+        "default system {:?}, the layers name {expected_default:?} last; files {}",
+        conv.default_system(),
+        serde_json::to_string(files).unwrap()
+    );
     if let RefOutcome::Accept(units, _best, fracs) = &refr {
         let actual: Vec<_> = conv.all_units().collect();
         vensure!(actual.len() == units.len(), "c16.unit-count", "converter has {} units, model {}; files {}", actual.len(), units.len(), serde_json::to_string(files).unwrap());
@@ -743,9 +775,10 @@ pub fn oracle(files: &[FileM], st: &mut Stats) -> Verdict {
             st.class("accepted with fraction layers (effective settings probed)");
             st.class_if(files.iter().filter(|f| f.fractions.is_some()).count() > 1, "several fraction layers");
             for (i, m) in units.iter().enumerate() {
-                let Some((enabled, den, whole)) = fracs[i] else { continue };
+                let Some((enabled, den, whole, acc)) = fracs[i] else { continue };
                 let key = m.symbols.first().or(m.names.first()).or(m.aliases.first()).unwrap();
-                for v in [0.5, 1.0 / 3.0, 0.125, 0.0625, 2.5, 7.25, 11.5] {
+                // 0.3, 0.27, 0.52 and 2.1 become fractions or not depending on the accuracy
+                for v in [0.5, 1.0 / 3.0, 0.125, 0.0625, 2.5, 7.25, 11.5, 0.3, 0.27, 0.52, 2.1] {
                     let mut q: ScaledQuantity = Quantity::new(Value::Number(Number::Regular(v)), Some(key.clone()));
                     let did = match guard(|| {
                         let d = q.try_fraction(conv);
@@ -754,7 +787,7 @@ pub fn oracle(files: &[FileM], st: &mut Stats) -> Verdict {
                         Ok(r) => r,
                         Err(p) => vbail!("c16.panic.try_fraction", "try_fraction panicked: {p}; files {}", serde_json::to_string(files).unwrap()),
                     };
-                    let expected = if enabled { Number::new_approx(v, 0.05, den, whole) } else { None };
+                    let expected = if enabled { Number::new_approx(v, acc, den, whole) } else { None };
                     let ok = match (&expected, &did) {
                         (None, (false, _)) => true,
                         (Some(n), (true, Value::Number(got))) => n == got,
@@ -763,7 +796,7 @@ pub fn oracle(files: &[FileM], st: &mut Stats) -> Verdict {
                     vensure!(
                         ok,
                         "c16.fraction-layering",
-                        "unit #{i} ({key}): the layers give fractions enabled={enabled}, max denominator {den}, max whole {whole}, so {v} reads {expected:?}; try_fraction gave {did:?}; files {}",
+                        "unit #{i} ({key}): the layers give fractions enabled={enabled}, accuracy {acc}, max denominator {den}, max whole {whole}, so {v} reads {expected:?}; try_fraction gave {did:?}; files {}",
                         serde_json::to_string(files).unwrap()
                     );
                 }
@@ -831,8 +864,9 @@ fn file(first: bool) -> impl Strategy<Value = FileM> {
         proptest::option::of((1u8..40, 0u8..9)),
         proptest::collection::vec((0u8..5, any::<bool>()), 0..2),
         proptest::collection::vec((word(), 1u8..20), 0..3),
+        (proptest::option::weighted(0.3, 0u8..4), proptest::option::weighted(0.4, 0u8..4), proptest::option::weighted(0.4, 0u8..4)),
     )
-        .prop_map(|(all, metric, imperial, quantity, unit)| FracM { all, metric, imperial, quantity, unit });
+        .prop_map(|(all, metric, imperial, quantity, unit, (all_accuracy, unit_accuracy, imperial_accuracy))| FracM { all, metric, imperial, quantity, unit, all_accuracy, unit_accuracy, imperial_accuracy });
     let group = (0u8..5, proptest::option::weighted(0.5, best()), proptest::option::weighted(0.8, units())).prop_map(|(quantity, best, units)| GroupM { quantity, best, units });
     (
         proptest::option::of(any::<bool>()),
@@ -1137,7 +1171,7 @@ pub fn run(tier: Tier) -> i32 {
         run_prop(
             &mut run,
             "layers",
-            "1-4 generated units files (unit groups by system, names/symbols/aliases from a 14-word pool incl. blank and colliding keys, SI prefix tables with each precedence, expand_si, best lists incl. unknown / empty / foreign-quantity names, fraction layers (base / per system / per quantity / per unit), extend tables with each precedence, extend and fraction keys naming automatically expanded units) with 4 repair levels so that both rejected and accepted stacks are frequent; oracle: a reference model of the layering gives must-reject verdicts and, for accepted stacks, the exact expected unit table (key order included) and the effective fraction settings of every unit, probed through try_fraction on 7 values; every accepted converter is checked for key resolution, key uniqueness and sorted, same-quantity best lists; distinct = distinct stack",
+            "1-4 generated units files (unit groups by system, names/symbols/aliases from a 14-word pool incl. blank and colliding keys, SI prefix tables with each precedence, expand_si, best lists incl. unknown / empty / foreign-quantity names, fraction layers (base / per system / per quantity / per unit), extend tables with each precedence, extend and fraction keys naming automatically expanded units) with 4 repair levels so that both rejected and accepted stacks are frequent; oracle: a reference model of the layering gives must-reject verdicts and, for accepted stacks, the exact expected unit table (key order included) and the effective fraction settings of every unit, probed through try_fraction on 11 values; every accepted converter is checked for key resolution, key uniqueness and sorted, same-quantity best lists; distinct = distinct stack",
             case,
             tier.pick(60_000, 4_000_000),
             |c: &Case, st| {
